@@ -8,7 +8,10 @@ Deductive part (abstract quaternion algebra, kernels by contract, symbolic n, bu
   pi.guards           non-square and empty input raise;
   nh.hermitian_path   on Hermitian input power_iteration_nonhermitian delegates to power_iteration, returns that
                       unit vector and an eigenvalue whose imaginary part is exactly 0 (complex and quaternion format).
-Convergence to the dominant eigenpair from every start, the sign of lambda, the complex-adjoint path and
+  nh.adjoint_path     provenance domain (qv/term.py): for every result of the complex iteration on the adjoint, every n and
+                      every option combination the returned quaternion vector is q / ||q||_F of one and the same q (or q
+                      itself when ||q||_F is not positive, i.e. q = 0): unit norm by C19.lemma.normalisation.
+Convergence to the dominant eigenpair from every start, the sign of lambda, the complex iteration itself and
 everything about rounding are decided by the bounded stand-in (spectra with gap <= 0.8, both signs, seeds)."""
 from __future__ import annotations
 
@@ -161,6 +164,89 @@ def deductive(rep: Report, tier):
     v = smt.prove([x > 0, s >= 0, s * s == x], (1 / s) * (1 / s) * x == 1, 10)
     rep.add(Obligation(f"{P}.lemma.normalisation", "spec", "all-shapes", v.status, v.backend, v.secs, v.model, kind="lemma"))
     rep.canary("C19.canary.unnormalised", smt.prove([x > 0, s >= 0, s * s == x], (1 / x) * (1 / x) * x == 1, 5).status == smt.REFUTED)
+    nonhermitian_tail(rep)
+
+
+def nonhermitian_tail(rep: Report):
+    """Complex-adjoint variant, non-Hermitian path, in the provenance domain: for EVERY result (lam, v_c, residuals) of the
+    complex iteration (arbitrary complex vector of even length 2n, arbitrary history) and every option combination the
+    returned quaternion vector is  q / ||q||_F  of one and the same q (whatever q the mapping back builds - the property
+    says nothing about the mapping itself, so its component order and the purification choice are deliberately NOT
+    pinned down).  With the scalar lemma C19.lemma.normalisation this is the unit-norm clause for all n; the only way
+    out is q = 0 (then q is returned as is)."""
+    from .. import term as tm
+    from ..values import SymList
+    from ..idx import CScal
+
+    def k_adj(I, args, kwargs):
+        A = args[0]
+        n = A.shape[0]
+        cur().ghost["adjoint_of"] = A
+        return tm.TArr(("adjoint", A.node), (2 * n, 2 * n))
+
+    def k_cpi(I, args, kwargs):
+        c = cur()
+        M = args[0]
+        vc = tm.atom("v_c", (M.shape[0],))
+        lam = CScal(SReal.var("lam_re"), SReal.var("lam_im"))
+        L = SInt.var("n_residuals")
+        c.assume(L >= 0)
+        c.ghost["cpi"] = dict(M=M, v=vc, lam=lam, kwargs=dict(kwargs))
+        return lam, vc, SymList(L, "residuals")
+
+    def k_fro(I, args, kwargs):
+        return tm.norm_term([args[0]])
+
+    contracts = {U + "_is_hermitian_quat": k_isherm(False), U + "quaternion_to_complex_adjoint": k_adj,
+                 U + "_power_iteration_complex": k_cpi, U + "quat_frobenius_norm": k_fro}
+    FN = U + "power_iteration_nonhermitian"
+    for purify in (True, False):
+        for fmt in ("complex", "quaternion"):
+            for retv in (True, False):
+                def setup(I, ctx, purify=purify, fmt=fmt, retv=retv):
+                    (n,) = dims(ctx, "n")
+                    A = tm.atom("A", (n, n))
+                    return [A], dict(block_purify=purify, eigenvalue_format=fmt, return_vector=retv), (A, n)
+
+                def post(I, ctx, outcome, val, aux, purify=purify, fmt=fmt, retv=retv):
+                    A, n = aux
+                    g = ctx.ghost.get("cpi")
+                    want = 3 if retv else 2
+                    ok = outcome == "return" and isinstance(val, tuple) and len(val) == want and g is not None
+                    out = [("returns_value_history_and_on_request_the_vector", bool(ok))]
+                    if not ok:
+                        return out
+                    if not retv:
+                        return out
+                    q = val[0]
+                    good = isinstance(q, tm.TArr)
+                    out.append(("vector_shape", good and len(q.shape) == 1 and SBool.mk(SInt.lift(q.shape[0]) == SInt.lift(n))))
+                    if not good:
+                        out.append(("vector_is_q_over_its_own_frobenius_norm", False))
+                        return out
+                    node = tm.strip(q.node)
+                    normalised = node[0] == "div" and len(node) == 3 and _scalar_of(node[2]) is not None
+                    base = node[1] if normalised else node
+                    nq = tm.norm_term([tm.TArr(base, (n,))])
+                    if normalised:
+                        out.append(("vector_is_q_over_its_own_frobenius_norm", SBool.mk(SReal.lift(_scalar_of(node[2])) == SReal.lift(nq))))
+                    else:
+                        # returned as is: only when its norm is not positive, i.e. q = 0
+                        out.append(("vector_is_q_over_its_own_frobenius_norm", nq == 0))
+                    return out
+                cl = ["returns_value_history_and_on_request_the_vector"]
+                if retv:
+                    cl += ["vector_shape", "vector_is_q_over_its_own_frobenius_norm"]
+                lib = tm.install(Library("idx"))
+                run_case(rep, P, FN, f"adjoint_path.purify_{purify}.{fmt}.{'vector' if retv else 'value_only'}", setup, post, lib=lib, contracts=contracts,
+                         clauses=cl, replay=replay_pi, timeout_s=20)
+
+
+def _scalar_of(key):
+    """the z3 real behind a ("z3", name) key produced by term._key"""
+    if isinstance(key, tuple) and len(key) == 2 and key[0] == "z3":
+        return SReal(z3.Real(key[1]))
+    return None
 
 
 # ---------------------------------------------------------------------------------------------------
@@ -276,7 +362,7 @@ def run(tier, seed):
     rep.assumptions += [
         "kernels by contract (C01); create_test_matrix returns an arbitrary n x 1 quaternion vector (its randomness is irrelevant to the invariant)",
         "A5 cited: |v^H A v| <= ||A||_2 for unit v; convergence of the power method for a separated dominant eigenvalue - both only sampled",
-        "the non-Hermitian (complex-adjoint) path is decided by the bounded stand-in",
+        "complex-adjoint path: _power_iteration_complex returns an arbitrary (lam, v_c, history) - contract 'any value', so nothing is assumed about it; quaternion_to_complex_adjoint by contract (C02); quat_frobenius_norm is invariant under reshape (C15); that v_c is not the zero vector (so that q != 0) is only sampled",
     ]
     rep.trusted += ["qv engine", "z3 5.1", "library model"]
     deductive(rep, tier)
